@@ -142,6 +142,7 @@ func cmdCheck(args []string) int {
 		cfg.timeoutMs = *tmo
 	}
 	t0 := time.Now()
+	repoRoot = cfg.repo
 	w, err := loadWorld(cfg.repo, "/verif/spec")
 	if err != nil {
 		fmt.Fprintln(os.Stderr, "CHECK-ERROR:", err)
